@@ -449,4 +449,6 @@ def run(ck):
     r1(ck)
     r2(ck)
     r3(ck)
+    from . import c01
+    c01.r6(ck, rule="C02-R3")      # the context counts anchoring and trimming rest on are counted from the line markers
     r4(ck)
